@@ -194,9 +194,12 @@ pub struct VariantSpec {
     pub docs_last: bool,
     /// `#[strum_discriminants(..)]` pass-through bodies on this variant (C09), e.g. `strum(serialize = "x")`
     pub disc_passthrough: Vec<String>,
-    /// harmless non-strum attributes written before the strum attributes of the variant
+    /// harmless non-strum attributes written among the strum attributes of the variant,
+    /// before strum group number `noise_at` (0 = before all of them)
     #[serde(default)]
     pub noise: Vec<String>,
+    #[serde(default)]
+    pub noise_at: usize,
 }
 
 impl VariantSpec {
@@ -211,6 +214,7 @@ impl VariantSpec {
             docs_last: false,
             disc_passthrough: vec![],
             noise: vec![],
+            noise_at: 0,
         }
     }
     pub fn attrs(&self) -> impl Iterator<Item = &VAttr> {
@@ -290,7 +294,13 @@ pub struct DiscOpts {
 
 #[derive(Clone, Debug, PartialEq, Serialize, Deserialize)]
 pub struct EnumSpec {
+    /// unique id of the program (module name, report key)
     pub name: String,
+    /// the Rust name of the enum type; empty = same as `name`. Most programs of a corpus share one
+    /// type name (in separate modules), so state leaking between macro expansions keyed by the
+    /// enum's name cannot hide
+    #[serde(default)]
+    pub rust_name: String,
     pub lifetime: bool,
     pub type_param: bool,
     /// a second type parameter U (only together with T)
@@ -321,6 +331,7 @@ impl EnumSpec {
     pub fn new(name: &str) -> Self {
         EnumSpec {
             name: name.to_string(),
+            rust_name: String::new(),
             lifetime: false,
             type_param: false,
             type_param2: false,
@@ -336,6 +347,13 @@ impl EnumSpec {
             disc_opts: None,
             base_const: None,
             noise: vec![],
+        }
+    }
+    pub fn type_name(&self) -> String {
+        if self.rust_name.is_empty() {
+            self.name.clone()
+        } else {
+            self.rust_name.clone()
         }
     }
     pub fn eattrs(&self) -> impl Iterator<Item = &EAttr> {
